@@ -1345,6 +1345,39 @@ example : let r := (runN ⟨true, true⟩ Fac.id (NReg.init reg2)
       [.enter 0, .facDone, .enter 1, .facDone, .leave, .enter 1, .facDone, .leave, .leave]).r
     r.agents.map (·.id) = [1, 2, 0] ∧ agentIds r 0 = [0] ∧ agentIds r 1 = [1, 2] ∧ r.next = 3 := by decide
 
+/-! ### Two models alive at once (wave 7) -/
+
+/-- With per-instance registries, interleaving the operations of two models changes nothing: each model ends in the
+state of its own operations, so every theorem about one registry applies to each of them. -/
+theorem two_isolated (f : Fac) (ops : List (Bool × Op)) :
+    ∀ t : Two, (runTwo true f t ops).a = run f t.a (opsFor true ops) ∧ (runTwo true f t ops).b = run f t.b (opsFor false ops) := by
+  induction ops with
+  | nil => intro t; exact ⟨rfl, rfl⟩
+  | cons x rest ih =>
+    intro t
+    obtain ⟨w, o⟩ := x
+    cases w with
+    | true =>
+      have := ih (stepTwo true f t (true, o))
+      simpa [runTwo, stepTwo, opsFor, run] using this
+    | false =>
+      have := ih (stepTwo true f t (false, o))
+      simpa [runTwo, stepTwo, opsFor, run] using this
+
+theorem C14_two_models (c : Cfg) (hc : c.countById = true) (reg : Nat → Bool) (f : Fac) (hf : Faithful f)
+    (ops : List (Bool × Op)) :
+    RegClauses c (runTwo true f ⟨Reg.init reg, Reg.init reg⟩ ops).a ∧
+    RegClauses c (runTwo true f ⟨Reg.init reg, Reg.init reg⟩ ops).b := by
+  obtain ⟨ha, hb⟩ := two_isolated f ops ⟨Reg.init reg, Reg.init reg⟩
+  rw [ha, hb]
+  exact ⟨clauses_of_inv c hc _ (inv_reachable reg f hf _), clauses_of_inv c hc _ (inv_reachable reg f hf _)⟩
+
+/-- Witness (kernel-checked): with one type map for both models, creating an agent in model A makes model B list and
+count an agent it does not have. -/
+theorem C14_witness_shared_registry :
+    let t := runTwo false Fac.id ⟨Reg.init reg2, Reg.init reg2⟩ [(true, .create 0)]
+    count t.b 0 = 1 ∧ (liveOfType t.b 0).length = 0 ∧ countPerState ⟨true, true, true⟩ t.b 0 0 = none := by decide
+
 /-- Non-vacuity: a history with all operation kinds; the per-state counts are the expected numbers. -/
 example : countPerState ⟨true, true, true⟩ (run Fac.id (Reg.init reg2)
     [.create 0, .create 1, .create 0, .delete [0], .setState 2 5, .configure [(0, 2), (1, 1)],
@@ -1384,5 +1417,8 @@ example : randomAgents (run Fac.id (Reg.init reg2)
 #print axioms runN_ops
 #print axioms C14_witness_nested_factory
 #print axioms C14_witness_nested_late
+#print axioms two_isolated
+#print axioms C14_two_models
+#print axioms C14_witness_shared_registry
 
 end Bptk.C14
